@@ -2764,6 +2764,7 @@ func (s *BgpServer) StartBgp(ctx context.Context, r *api.StartBgpRequest) error 
 			return err
 		}
 		s.bgpConfig.Global = *c
+		s.roaTable.SetLocalAS(c.Config.As)
 		// update route selection options
 		table.SelectionOptions = c.RouteSelectionOptions.Config
 		table.UseMultiplePaths = c.UseMultiplePaths.Config
